@@ -298,6 +298,22 @@ PROPS = {
         exhaustive_note="exhaustive over (scenario, k, once/persistent) for the listed scenarios; the thorough tier repeats them with 40..120 size variants",
         assumptions=["allocation sites are those reached by the 19 scenarios (listed in the evidence labels)", "realloc failure leaves the old block valid, as the C library does"],
     ),
+    "C17": dict(
+        level="exploration", monitors={"mon_glyph": {"sources": ["mon_glyph.c", "vf_req.c", "ref_pixel.c", "ref_ops.c", "vf.c"]}},
+        runs=[dict(name="hw4", monitor="mon_glyph", flavour="plain", config="hw4", defs=["-DPIXMAN_VERIF_GLYPH_HIGH_WATER=4"], cases={"quick": 6000, "thorough": 600000}),
+              dict(name="hw8", monitor="mon_glyph", flavour="plain", config="hw8", defs=["-DPIXMAN_VERIF_GLYPH_HIGH_WATER=8"], cases={"quick": 4000, "thorough": 400000}),
+              dict(name="hw64", monitor="mon_glyph", flavour="plain", config="hw64", defs=["-DPIXMAN_VERIF_GLYPH_HIGH_WATER=64"], cases={"quick": 1500, "thorough": 100000}),
+              dict(name="production-size", monitor="mon_glyph", flavour="plain", config="hw16384", cases={"quick": 640, "thorough": 20000}),
+              dict(name="hw4-asan", monitor="mon_glyph", flavour="asan", config="hw4", defs=["-DPIXMAN_VERIF_GLYPH_HIGH_WATER=4"], cases={"quick": 1500, "thorough": 100000}),
+              dict(name="production-size-asan", monitor="mon_glyph", flavour="asan", config="hw16384", cases={"quick": 128, "thorough": 4000})],
+        rule="one case = a 200-step history of freeze / thaw / lookup / insert (lookup first, as clients do) / remove / draw over a key pool about 3x the high-water mark, on library builds whose glyph table is shrunk "
+             "(PIXMAN_VERIF hook: high water 4, 8, 64 -> 8, 16, 128 slots) so that the table fills completely, tombstones build up and probes wrap, plus the production size with table-filling histories (2*16384+8 inserts in one freeze, then lookups of absent keys); "
+             "model: map key -> (handle, private copy of the inserted pixels, origin), freeze depth, recency; every lookup is compared with the model, refusals are judged against what the table can hold, after each thaw to depth 0 the survivors must be all entries or the most recently used low-water many "
+             "(or none when more than high-water tombstones can exist); a probe sequence longer than the table is reported by the library hook; drawing: composite_glyphs_no_mask vs one composite32 per glyph from the monitor's copies, "
+             "composite_glyphs vs ADD-accumulating the copies into a mask of the requested format and compositing it (14 operators, a1/a4/a8/8888/565 glyphs mixed, clips, positions partly outside); evaluations = lookups + pixels compared; a cell = history by hash / draw class",
+        floors={"any": {"lookups": 200000, "inserts": 50000, "removes": 20000, "thaws_with_eviction": 500, "inserts_refused": 20, "draws_with_mask": 3000, "draws_no_mask": 3000, "labels:draw_op_maskfmt": 50}},
+        assumptions=["the monitor cannot see tombstones: it uses the number of removals as their upper bound", "table-size override is the PIXMAN_VERIF hook H1 (add-only)"],
+    ),
 }
 
 # ---------------------------------------------------------------- MANIFEST texts
@@ -386,6 +402,11 @@ MANIFEST_TEXT["C15"] = dict(
     technique="fault injection by link-time wrapping of malloc/calloc/realloc/free with exhaustive enumeration of the failing allocation index per scenario, under ASan, with live-block accounting",
     level_text="Fault enumeration: for each of 19 API scenarios every allocation index k is failed once and persistently; crash, leak (live-block accounting), broken-region propagation, reporting and write confinement are checked after every injected run.",
     level_note="trusted: the wrappers in harness/vf_alloc.c; sites not reached by the scenarios are not covered")
+
+MANIFEST_TEXT["C17"] = dict(
+    technique="history-vs-model runtime monitor on shrunken hash tables (PIXMAN_VERIF hook) with a probe-overrun hook for termination; differential monitor for glyph drawing (through the cache vs per-glyph compositing from private copies)",
+    level_text="Exploration: 10^4..10^6 histories of 200 cache operations on 8/16/128-slot tables and the production table (table-filling runs), every lookup checked against a map model, eviction checked for LRU order, termination as a logical-step verdict; glyph drawing compared bit-for-bit with the two reference constructions of the statement.",
+    level_note="trusted: the map model in harness/mon_glyph.c; hook H1 in pixman-glyph.c (guarded, add-only)")
 
 NOT_CLAIMED = {p: "monitor not built yet in this round (design in DESIGN.md section 6); no claim is made" for p in
                ["C%02d" % i for i in range(1, 21)]}
